@@ -87,6 +87,46 @@ def map_inserts(body, raw_operand):
     return out
 
 
+def map_writes(body):
+    """[(key, value_expr, receiver_expr, call)] for every live write of a constant key into a serde_json Map in this body:
+    `m.insert("k", v)`, and `m.extend(src)` where src is (a clone of) `Map::from_iter([("k", v), ..])`."""
+    out = []
+    for c in body.calls():
+        if c.bb not in body.live_blocks():
+            continue
+        if c.fn.startswith("serde_json::map::Map") and c.fn.endswith("::insert"):
+            keys = q.const_strs(c.arg(1))
+            if keys:
+                out.append((keys[0], c.arg(2), c.arg(0), c))
+        elif c.fn == "core::iter::traits::collect::Extend::extend" and (c.res or "").startswith("<serde_json::map::Map<"):
+            src = strip(c.arg(1))
+            n = 0
+            while src[0] == "call" and src[1].fn.endswith("Clone>::clone") and n < 4:
+                src = strip(src[2][0])
+                n += 1
+            if not (src[0] == "call" and src[1].fn == "core::iter::traits::collect::FromIterator::from_iter" and (src[1].res or "").startswith("<serde_json::map::Map<")):
+                continue
+            chain = {src[1].dest["l"]}
+            for _ in range(3):
+                for l, ds in body.defs().items():
+                    if len(ds) == 1 and ds[0][0] == "assign" and "use" in ds[0][3]:
+                        pl = ds[0][3]["use"].get("move") or ds[0][3]["use"].get("copy")
+                        if pl and not pl["p"] and pl["l"] in chain:
+                            chain.add(l)
+            if chain & body.mut_borrowed():
+                continue     # the source map is edited after it is built: its keys are not known
+            arr = strip(src[2][0])
+            if arr[0] != "agg" or arr[1].get("agg") != "array":
+                continue
+            for item in arr[2]:
+                it = strip(item)
+                if it[0] == "agg" and it[1].get("agg") == "tuple" and len(it[2]) == 2:
+                    keys = q.const_strs(it[2][0])
+                    if keys:
+                        out.append((keys[0], it[2][1], c.arg(0), c))
+    return out
+
+
 def meta_keys(body, meta_expr):
     """{key: value_expr} for a meta argument built with json!({..}); None if it is not a json! object."""
     x = q.peel(meta_expr)
